@@ -29,6 +29,7 @@ type Opts struct {
 	IfaceDynamic []reflect.Type
 	NoRepeat     bool // do not bias towards repeating earlier strings / interface values
 	pool         *pool
+	keyMode      bool // generating a map key: interface{} positions only get hashable scalars that stay distinct on the wire
 }
 
 // pool remembers values drawn earlier in the same case so that later positions can repeat
@@ -429,6 +430,8 @@ func fill(rt *rapid.T, v reflect.Value, depth int, o Opts) {
 			} else {
 				ko := o
 				ko.NoNaN = true
+				ko.keyMode = true
+				ko.NoBadUTF8 = ko.NoBadUTF8 || TypeHas(t.Key(), func(x reflect.Type) bool { return x == TIface })
 				fill(rt, key, 0, ko)
 			}
 			val := reflect.New(t.Elem()).Elem()
@@ -451,6 +454,13 @@ func fill(rt *rapid.T, v reflect.Value, depth int, o Opts) {
 			return
 		}
 		if rapid.IntRange(0, 6).Draw(rt, "niliface") == 0 {
+			return
+		}
+		if o.keyMode {
+			kt := rapid.SampledFrom([]reflect.Type{tInt, tString, tBool}).Draw(rt, "ikt2")
+			ko := o
+			ko.pool = nil
+			v.Set(Gen(rt, kt, 0, ko))
 			return
 		}
 		if o.pool != nil && len(o.pool.ifaces) > 0 && rapid.IntRange(0, 3).Draw(rt, "irepeat") == 0 {
